@@ -193,6 +193,9 @@ func Run(prop, tier string) int {
 	if prop == "C12" {
 		return rt.RunDeterminism(families[prop], tier, "classes = seeded samples of the units of the C02, C04, C08, C09, C11, C14 families (single-file schemas) and 3 multi-file CLI scenarios with cross-file references, per-schema package / output / root-type mappings (ids also spelled with a trailing #), definitions and properties that collide on their Go name, options; variants = 8 (thorough 32) repeated in-process runs (Go re-randomises every map range), 6 (24) random permutations of the keys of every JSON object, 3 (8) separate processes, absolute vs relative arguments, the schema directory moved elsewhere; all variants of a class must produce byte-identical output. distinct_nontrivial = variants other than the first")
 	}
+	if prop == "C20" {
+		return rt.RunLayouts(tier, "layouts = files a, b, c (+ unrelated z), each with its own $id, root type and definition x reference graph (none, chain, diamond, 2-cycle) x mapping mode (all default; each id its own package and file; two ids sharing a file and package; two ids sharing a file under different packages; a package mapping without an output mapping) x directory layout (flat; b and c in a sub-directory with relative references); runs = every ordered list of distinct files as arguments (quick: up to 2 files, or 3 without z; thorough: all up to 4). distinct_nontrivial = runs with more than one argument")
+	}
 	if prop == "C16" {
 		return rt.RunOptions(families[prop], tier, "schemas = a kitchen-sink schema (pattern, multipleOf, formats, defaults, string and mixed enums, typed additionalProperties, anyOf, $ref, titles, names the capitalization list applies to) plus seeded samples of the units of the C02, C04, C05, C06, C08, C09, C11 families; each generated under all 64 subsets of {only-models, tags, capitalization, struct-name-from-title, schema-root-type, extra-imports}; events = all 192 pairs of sets differing in exactly one option per schema; TLC applies the table of spec/Options.tla to go/ast projections of the two programs and both must compile. distinct_nontrivial = pairs whose two sides both generate")
 	}
